@@ -12,6 +12,7 @@ import (
 	"runtime"
 	"strings"
 	"sync"
+	"sync/atomic"
 	"time"
 
 	"github.com/fluffle/goirc/client"
@@ -46,7 +47,9 @@ type LifeScenario struct {
 	BgBusy             bool   `json:"bg_busy"`                // a background handler is still at work during the whole teardown (it returns only after DISCONNECTED): teardown must not wait for it
 	CloseFromBg        bool   `json:"close_from_bg"`          // the Close of cause "close" is called by a background handler
 	CancelEarly        string `json:"cancel_early"`           // "" | before | during : the context given to ConnectContext is cancelled before the call / while the (context-unaware) dialer is at work
-	SilentMs           int    `json:"silent_ms"`              // before the cause the server stays connected but silent for this long, never answering the client's PINGs (Timeout is set to a fifth of it)
+	SilentMs           int    `json:"silent_ms"`
+	TimeoutMs          int    `json:"timeout_ms"` // Config.Timeout (0 = the scenario's default of 3 s): a legal, rarely tuned value
+	HoldMs             int    `json:"hold_ms"`    // the gated foreground handler keeps working this long after the cause (longer than Timeout, say)              // before the cause the server stays connected but silent for this long, never answering the client's PINGs (Timeout is set to a fifth of it)
 }
 
 type LifeResult struct {
@@ -143,6 +146,10 @@ func runLifeScenario(sc LifeScenario) LifeResult {
 	if sc.SilentMs > 0 {
 		cfg.Timeout = time.Duration(sc.SilentMs/5) * time.Millisecond
 	}
+	if sc.TimeoutMs > 0 {
+		cfg.Timeout = time.Duration(sc.TimeoutMs) * time.Millisecond
+	}
+	var gatedEntered, gatedDone int32
 	conn := client.Client(cfg)
 	if sc.Track {
 		conn.EnableStateTracking()
@@ -160,6 +167,10 @@ func runLifeScenario(sc LifeScenario) LifeResult {
 	conn.HandleFunc(client.REGISTER, func(c *client.Conn, _ *client.Line) { lg.add("REGISTER flag=%s", flagStr(c.Connected())) })
 	conn.HandleFunc(client.CONNECTED, func(c *client.Conn, _ *client.Line) { lg.add("CONNECTED flag=%s", flagStr(c.Connected())) })
 	conn.HandleFunc(client.DISCONNECTED, func(c *client.Conn, _ *client.Line) {
+		if atomic.LoadInt32(&gatedEntered) > atomic.LoadInt32(&gatedDone) && lg.count("DISCONNECTED") == 0 {
+			// nothing of a connection is delivered after its DISCONNECTED, and its handlers have finished by then
+			lg.add("stale-handler: DISCONNECTED delivered while a foreground handler of that connection was still running")
+		}
 		lg.add("DISCONNECTED flag=%s", flagStr(c.Connected()))
 		cyc.Lock()
 		again := sc.Reconnect != "" && cycles > 0
@@ -189,6 +200,8 @@ func runLifeScenario(sc LifeScenario) LifeResult {
 	})
 	conn.HandleFunc("PRIVMSG", func(c *client.Conn, l *client.Line) {
 		if l.Text() == "gate" {
+			atomic.AddInt32(&gatedEntered, 1)
+			defer atomic.AddInt32(&gatedDone, 1)
 			entered <- struct{}{}
 			<-gate
 			if sc.HandlerAsksFlag {
@@ -492,6 +505,9 @@ func runLifeScenario(sc LifeScenario) LifeResult {
 		}
 	}
 	time.Sleep(time.Millisecond)
+	if sc.HoldMs > 0 {
+		time.Sleep(time.Duration(sc.HoldMs) * time.Millisecond)
+	}
 	release()
 	if gw != nil { // let the slow server read again only after the cause
 		go func() {
